@@ -300,28 +300,54 @@ Fixpoint find_fld_from (p : nat) (fs : list field) (i : nat) : option (nat * fie
   end.
 Definition find_fld := find_fld_from 0.
 
-(* highest index of a non-skipped field whose value is not nil *)
-Fixpoint max_idx (fs : list field) (nils : list bool) : option nat :=
-  match fs, nils with
-  | f :: fr, b :: br =>
-      let m := max_idx fr br in
+(* --- the body of a struct / variant as minicbor-derive 0.15 `encode_fields` writes it under
+       array encoding.  What the generated code needs of each non-skipped field: --- *)
+Record dfield : Type := mkD { d_idx : nat; d_enc : list tok; d_nil : bool }.
+
+Fixpoint collect (fs : list field) (encs : list (list tok)) (nils : list bool) : list dfield :=
+  match fs, encs, nils with
+  | f :: fr, e :: er, b :: br =>
       match f_idx f with
-      | Some i => if b then m else match m with Some j => Some (Nat.max i j) | None => Some i end
-      | None => m
+      | Some i => mkD i e b :: collect fr er br
+      | None => collect fr er br
       end
-  | _, _ => None
+  | _, _, _ => []
   end.
 
-Definition enc_slot (fs : list field) (encs : list (list tok)) (i : nat) : list tok :=
-  match find_fld fs i with
-  | Some (p, _) => nth p encs []
-  | None => [TNull]
+(* Fields::try_from: `fields.sort_unstable_by_key(|f| f.index.val())` (indices are unique) *)
+Fixpoint insert_d (x : dfield) (l : list dfield) : list dfield :=
+  match l with
+  | [] => [x]
+  | y :: r => if Nat.leb (d_idx x) (d_idx y) then x :: l else y :: insert_d x r
+  end.
+Definition sort_d (l : list dfield) : list dfield := fold_right insert_d [] l.
+
+(* the tests, one per field in index order: `if !is_nil(&field) { __max_index = Some(n) }` *)
+Fixpoint derive_max (sf : list dfield) (acc : option nat) : option nat :=
+  match sf with
+  | [] => acc
+  | x :: r => derive_max r (if d_nil x then acc else Some (d_idx x))
   end.
 
+(* the statements, one per field in index order:
+   `if n <= __i { for _ in 0 .. gaps { e.null()? } encode(field) }`
+   where `gaps` is computed when the macro expands: n - k for the first field, n - k - 1
+   afterwards, k = index of the previous field (0 at the start) *)
+Fixpoint derive_emit (first : bool) (k : nat) (m : nat) (sf : list dfield) : list tok :=
+  match sf with
+  | [] => []
+  | x :: r =>
+      let gaps := if first then d_idx x - k else d_idx x - k - 1 in
+      (if Nat.leb (d_idx x) m then repeat TNull gaps ++ d_enc x else [])
+      ++ derive_emit false (d_idx x) m r
+  end.
+
+(* `if let Some(i) = __max_index { e.array(i + 1); statements } else { e.array(0) }` *)
 Definition enc_rec (fs : list field) (encs : list (list tok)) (nils : list bool) : list tok :=
-  match max_idx fs nils with
+  let sf := sort_d (collect fs encs nils) in
+  match derive_max sf None with
   | None => [TArr 0]
-  | Some m => TArr (S m) :: flat_map (enc_slot fs encs) (seq 0 (S m))
+  | Some m => TArr (S m) :: derive_emit true 0 m sf
   end.
 
 Fixpoint find_var_from (p : nat) (vs : list variant) (k : nat) : option (nat * variant) :=
